@@ -154,6 +154,11 @@ func (d *duplexHTTPCall) Read(data []byte) (int, error) {
 		return 0, fmt.Errorf("nil response from %v", d.request.URL)
 	}
 	n, err := d.response.Body.Read(data)
+	if err != nil && !errors.Is(err, io.EOF) {
+		// If the context was canceled or timed out while we were blocked reading
+		// the body, the transport's error is a symptom of that.
+		err = wrapIfContextDone(d.ctx, err)
+	}
 	return n, wrapIfRSTError(err)
 }
 
@@ -165,9 +170,9 @@ func (d *duplexHTTPCall) CloseRead() error {
 	if err := discard(d.response.Body); err != nil {
 		// Even if we can't drain the body, we still need to release it.
 		_ = d.response.Body.Close()
-		return wrapIfRSTError(err)
+		return wrapIfRSTError(wrapIfContextDone(d.ctx, err))
 	}
-	return wrapIfRSTError(d.response.Body.Close())
+	return wrapIfRSTError(wrapIfContextDone(d.ctx, d.response.Body.Close()))
 }
 
 // ResponseStatusCode is the response's HTTP status code.
